@@ -20,7 +20,7 @@ E_MUL_DD = 5 * U * U            # Alg. 12 (DWTimesDW3)
 E_MUL_FP = 2 * U * U            # Alg. 9  (DWTimesFP3)
 E_ADD_DD = 3 * U * U + 13 * U ** 3      # Alg. 6  (AccurateDWPlusDW)
 E_ADD_FP = 2 * U * U            # Alg. 4  (DWPlusFP)
-E_DIV_DD = 16 * U * U           # the long division: bound stated by property C05 (used as a lemma only)
+E_DIV_DD = 16 * U * U           # the long division: bound established by C05's rule R10e (11 u^2)
 E_MAX = max(E_MUL_DD, E_MUL_FP, E_ADD_DD, E_ADD_FP)
 
 class NotPolynomial(Exception):
